@@ -1,12 +1,57 @@
 /-
 JSON-lines driver for the constraints engine: one request per line on stdin, one reply per line.
-  {"op":"chain_eval","chain":[<constraint>...],"value":<pyval>}  ->  {"codes":[...]} | {"unsupported":"..."}
-constraint: {"k":"REQ"} {"k":"OPT"} {"k":"CONST","v":<pyval>} {"k":"ENUM","a":[str...]}
-pyval: null | true/false | {"i":"<decimal>"} | {"s":"..."} | {"l":[pyval...]}
+
+  pyval      : null | true | false | {"i":"<dec>"} | {"f":{"r":"<repr>","n":"<num>","d":"<den>"}}
+               | {"f":{"r":"<repr>","t":"inf|-inf|nan"}} | {"s":"…"} | {"l":[pyval…]}
+               | {"z":{"c":"…","t":"…"|null,"f":"…"}}
+  num        : {"n":"<num>","d":"<den>"} | {"t":"inf|-inf|nan"}
+  constraint : {"k":"REQ|OPT|DIR|APPEND_ONLY|DATE|ISO8601|LITERAL"} | {"k":"CONST","v":pyval}
+               | {"k":"ENUM","a":[str…]} | {"k":"TYPE","t":str} | {"k":"REGEX","p":str}
+               | {"k":"RANGE","lo":num,"hi":num} | {"k":"MAX_LENGTH","n":"<int>"} | {"k":"MIN_LENGTH","n":"<int>"}
+               | {"k":"LANG","t":str}
+  env        : {"re":[[pattern,string,bool]…], "reok":[[pattern,bool]…], "fr":[[numeral,repr]…]}
+
+  {"op":"chain_eval","chain":[constraint…],"value":pyval,"env":env}
+      -> {"codes":[…],"spec":bool} | {"raised":"OverflowError","spec":bool} | {"unsupported":"…"}
+  {"op":"parse_eval","text":str,"value":pyval,"env":env}
+      -> {"parse":"ValueError"} | {"chain":[constraint…],"codes":[…]|"raised":…,"spec":bool} | {"unsupported":…}
+  {"op":"float_of_str","s":str} -> {"v":num} | {"err":"ValueError"}
+  {"op":"int_of_str","s":str}   -> {"v":"<int>"} | {"err":"ValueError"}
+  {"op":"float_of_int","i":"<int>"} -> {"v":num} | {"err":"OverflowError"}
+  {"op":"fromiso","s":str}      -> {"ok":bool} | {"unsupported":…}
+  {"op":"date_re","s":str}      -> {"ok":bool}
+  {"op":"validate_section","key":str,"children":[[str,pyval]…],"policy":str,
+        "fields":[[str,[constraint…]|null]…],"env":env}
+      -> {"errors":[[code,path,severity]…]} | {"raised":…} | {"unsupported":…}
+
+`unsupported` is answered whenever the case leaves the modelled domain (never a guessed verdict).
 -/
 import Lean.Data.Json
 import Octave.Model.Constraints
+import Octave.Model.Validator
+import Octave.Spec.Meaning
 open Lean Octave
+
+def sentinel : Str := ['\x00', '?', 'r', 'e', 'p', 'r']
+
+def ratOfJson (j : Json) : Except String FVal := do
+  if let .ok t := j.getObjValAs? String "t" then
+    match t with
+    | "inf" => return .pinf
+    | "-inf" => return .ninf
+    | "nan" => return .nan
+    | _ => throw "bad float tag"
+  let n ← j.getObjValAs? String "n"
+  let d ← j.getObjValAs? String "d"
+  match n.toInt?, d.toNat? with
+  | some n, some d => if d == 0 then throw "zero denominator" else return .fin (mkRat n d)
+  | _, _ => throw "bad rational"
+
+def jsonOfFVal : FVal → Json
+  | .fin q => Json.mkObj [("n", toString q.num), ("d", toString q.den)]
+  | .pinf => Json.mkObj [("t", "inf")]
+  | .ninf => Json.mkObj [("t", "-inf")]
+  | .nan => Json.mkObj [("t", "nan")]
 
 partial def pyValOfJson : Json → Except String PyVal
   | .null => pure .null
@@ -17,38 +62,242 @@ partial def pyValOfJson : Json → Except String PyVal
       match i.toInt? with
       | some n => return .int n
       | none => throw "bad int"
+    if let .ok f := j.getObjVal? "f" then
+      let r ← f.getObjValAs? String "r"
+      let v ← ratOfJson f
+      return .float r.toList v
     if let .ok (xs : Array Json) := j.getObjValAs? (Array Json) "l" then
       let ys ← xs.toList.mapM pyValOfJson
       return .list ys
+    if let .ok z := j.getObjVal? "z" then
+      let c ← z.getObjValAs? String "c"
+      let f ← z.getObjValAs? String "f"
+      let t : Option Str := match z.getObjValAs? String "t" with
+        | .ok t => some t.toList
+        | .error _ => none
+      return .zone c.toList t f.toList
     throw "unsupported value kind"
+
+partial def jsonOfPyVal : PyVal → Json
+  | .null => .null
+  | .bool b => .bool b
+  | .int i => Json.mkObj [("i", toString i)]
+  | .float r v => Json.mkObj [("f", (jsonOfFVal v).setObjVal! "r" (String.ofList r))]
+  | .str s => Json.mkObj [("s", String.ofList s)]
+  | .list xs => Json.mkObj [("l", Json.arr (xs.map jsonOfPyVal).toArray)]
+  | .zone c t f => Json.mkObj [("z", Json.mkObj [("c", String.ofList c), ("t", match t with | some t => Json.str (String.ofList t) | none => .null), ("f", String.ofList f)])]
 
 def constraintOfJson (j : Json) : Except String Constraint := do
   let k ← j.getObjValAs? String "k"
   match k with
   | "REQ" => pure .req
   | "OPT" => pure .opt
+  | "DIR" => pure .dir
+  | "APPEND_ONLY" => pure .appendOnly
+  | "DATE" => pure .date
+  | "ISO8601" => pure .iso8601
+  | "LITERAL" => pure .literal
   | "CONST" => do let v ← pyValOfJson (← j.getObjVal? "v"); pure (.const v)
   | "ENUM" => do let a ← j.getObjValAs? (Array String) "a"; pure (.enum (a.toList.map String.toList))
+  | "TYPE" => do let t ← j.getObjValAs? String "t"; pure (.type t.toList)
+  | "REGEX" => do let p ← j.getObjValAs? String "p"; pure (.regex p.toList)
+  | "LANG" => do let t ← j.getObjValAs? String "t"; pure (.lang t.toList)
+  | "RANGE" => do
+    let lo ← ratOfJson (← j.getObjVal? "lo")
+    let hi ← ratOfJson (← j.getObjVal? "hi")
+    pure (.range lo hi)
+  | "MAX_LENGTH" => do
+    let n ← j.getObjValAs? String "n"
+    match n.toInt? with | some n => pure (.maxLength n) | none => throw "bad int"
+  | "MIN_LENGTH" => do
+    let n ← j.getObjValAs? String "n"
+    match n.toInt? with | some n => pure (.minLength n) | none => throw "bad int"
   | other => throw s!"unsupported constraint kind {other}"
 
+def jsonOfConstraint : Constraint → Json
+  | .req => Json.mkObj [("k", "REQ")]
+  | .opt => Json.mkObj [("k", "OPT")]
+  | .dir => Json.mkObj [("k", "DIR")]
+  | .appendOnly => Json.mkObj [("k", "APPEND_ONLY")]
+  | .date => Json.mkObj [("k", "DATE")]
+  | .iso8601 => Json.mkObj [("k", "ISO8601")]
+  | .literal => Json.mkObj [("k", "LITERAL")]
+  | .const v => Json.mkObj [("k", "CONST"), ("v", jsonOfPyVal v)]
+  | .enum a => Json.mkObj [("k", "ENUM"), ("a", toJson (a.map String.ofList))]
+  | .type t => Json.mkObj [("k", "TYPE"), ("t", String.ofList t)]
+  | .regex p => Json.mkObj [("k", "REGEX"), ("p", String.ofList p)]
+  | .lang t => Json.mkObj [("k", "LANG"), ("t", String.ofList t)]
+  | .range lo hi => Json.mkObj [("k", "RANGE"), ("lo", jsonOfFVal lo), ("hi", jsonOfFVal hi)]
+  | .maxLength n => Json.mkObj [("k", "MAX_LENGTH"), ("n", toString n)]
+  | .minLength n => Json.mkObj [("k", "MIN_LENGTH"), ("n", toString n)]
+
+/-- externals supplied with the case -/
+structure Tables where
+  re : List (Str × Str × Bool)
+  reok : List (Str × Bool)
+  fr : List (Str × Str)
+
+def tablesOfJson (j : Json) : Except String Tables := do
+  let env := (j.getObjVal? "env").toOption.getD (Json.mkObj [])
+  let arr (k : String) : Array Json := ((env.getObjValAs? (Array Json) k).toOption).getD #[]
+  let re ← (arr "re").toList.mapM fun e => do
+    let p ← (← e.getArrVal? 0).getStr?
+    let s ← (← e.getArrVal? 1).getStr?
+    let b ← (← e.getArrVal? 2).getBool?
+    pure (p.toList, s.toList, b)
+  let reok ← (arr "reok").toList.mapM fun e => do
+    let p ← (← e.getArrVal? 0).getStr?
+    let b ← (← e.getArrVal? 1).getBool?
+    pure (p.toList, b)
+  let fr ← (arr "fr").toList.mapM fun e => do
+    let s ← (← e.getArrVal? 0).getStr?
+    let r ← (← e.getArrVal? 1).getStr?
+    pure (s.toList, r.toList)
+  pure ⟨re, reok, fr⟩
+
+def Tables.env (t : Tables) (assumeReOk : Bool := false) : Env where
+  reMatch p s := match t.re.find? (fun e => e.1 == p && e.2.1 == s) with
+    | some e => e.2.2
+    | none => false
+  reOk p := if assumeReOk then true else match t.reok.find? (fun e => e.1 == p) with
+    | some e => e.2
+    | none => false
+  floatRepr s := match t.fr.find? (fun e => e.1 == s) with
+    | some e => e.2
+    | none => sentinel
+
+def hasSentinel (s : Str) : Bool := s.take 2 == ['\x00', '?']
+
+partial def valueProblem : PyVal → (inList : Bool) → Option String
+  | .float r v, inList =>
+    if hasSentinel r then some "float repr not supplied"
+    else if inList && v.isNan then some "nan inside a list (identity shortcut of ==)" else none
+  | .str s, inList => if inList && s.any (fun c => c.toNat ≥ 127) then some "repr of non-ASCII str" else none
+  | .list xs, _ => xs.findSome? (valueProblem · true)
+  | .zone c t f, _ =>
+    if (c ++ (t.getD []) ++ f).any (fun c => c.toNat ≥ 127) then some "repr of non-ASCII str (zone)" else none
+  | _, _ => none
+
+/-- does the case leave the modelled domain? -/
+def problem (t : Tables) (cs : List Constraint) (v : PyVal) : Option String :=
+  (valueProblem v false).orElse fun _ =>
+  cs.findSome? fun c =>
+    match c with
+    | .const w => valueProblem w false
+    | .regex p =>
+      if !(t.re.any fun e => e.1 == p && e.2.1 == v.pyStr) then some "regex verdict not supplied" else none
+    | .lang tag =>
+      let zt := match v with | .zone _ (some zt) _ => zt | _ => []
+      if (tag ++ zt).any (fun c => c.toNat ≥ 128) then some "non-ASCII lower()" else none
+    | .date =>
+      if reDateMatch v.pyStr && (Iso.fromIso? v.pyStr).isNone then some "fromisoformat outside the model" else none
+    | .iso8601 =>
+      let s := replaceZ v.pyStr
+      if s.contains '\x00' && (Iso.utf8 s).length ≥ 7 then some "fromisoformat: embedded NUL"
+      else if (Iso.fromIso? s).isNone then some "fromisoformat outside the model" else none
+    | .enum a => if a.any hasSentinel then some "float repr not supplied" else none
+    | _ => none
+
+def resultFields (env : Env) (cs : List Constraint) (v : PyVal) : List (String × Json) :=
+  let spec : Json := toJson (Spec.chainAccepts env cs v)
+  match evalChain env cs v with
+  | .errors codes => [("codes", toJson codes), ("spec", spec)]
+  | .raised x => [("raised", x), ("spec", spec)]
+
+def unsupported (why : String) : Json := Json.mkObj [("unsupported", why)]
+
 def handle (j : Json) : Json :=
-  match j.getObjValAs? String "op" with
-  | .ok "chain_eval" =>
-    let r : Except String Json := do
+  let r : Except String Json := do
+    let op ← j.getObjValAs? String "op"
+    match op with
+    | "chain_eval" =>
       let cs ← (← j.getObjValAs? (Array Json) "chain").toList.mapM constraintOfJson
       let v ← pyValOfJson (← j.getObjVal? "value")
-      pure (Json.mkObj [("codes", toJson (evalChain cs v))])
-    match r with
-    | .ok out => out
-    | .error e => Json.mkObj [("unsupported", e)]
-  | _ => Json.mkObj [("unsupported", "op")]
+      let t ← tablesOfJson j
+      match problem t cs v with
+      | some why => pure (unsupported why)
+      | none => pure (Json.mkObj (resultFields t.env cs v))
+    | "parse_eval" =>
+      let text ← j.getObjValAs? String "text"
+      let v ← pyValOfJson (← j.getObjVal? "value")
+      let t ← tablesOfJson j
+      -- first pass: which regex patterns does the text construct?
+      match parseChain (t.env true) text.toList with
+      | none => pure (Json.mkObj [("parse", "ValueError")])
+      | some cs0 =>
+        let missing := cs0.any fun c => match c with
+          | .regex p => !(t.reok.any fun e => e.1 == p)
+          | _ => false
+        if missing then pure (unsupported "regex validity not supplied")
+        else match parseChain t.env text.toList with
+          | none => pure (Json.mkObj [("parse", "ValueError")])
+          | some cs =>
+            match problem t cs v with
+            | some why => pure (unsupported why)
+            | none => pure (Json.mkObj (("chain", Json.arr (cs.map jsonOfConstraint).toArray) :: resultFields t.env cs v))
+    | "float_of_str" =>
+      let s ← j.getObjValAs? String "s"
+      match pyFloatOfStr s.toList with
+      | some x => pure (Json.mkObj [("v", jsonOfFVal x)])
+      | none => pure (Json.mkObj [("err", "ValueError")])
+    | "int_of_str" =>
+      let s ← j.getObjValAs? String "s"
+      match pyIntOfStr s.toList with
+      | some x => pure (Json.mkObj [("v", toString x)])
+      | none => pure (Json.mkObj [("err", "ValueError")])
+    | "float_of_int" =>
+      let s ← j.getObjValAs? String "i"
+      match s.toInt? with
+      | none => throw "bad int"
+      | some i => match floatOfInt i with
+        | some x => pure (Json.mkObj [("v", jsonOfFVal x)])
+        | none => pure (Json.mkObj [("err", "OverflowError")])
+    | "fromiso" =>
+      let s ← j.getObjValAs? String "s"
+      if s.toList.contains '\x00' then pure (unsupported "embedded NUL")
+      else match Iso.fromIso? s.toList with
+        | some b => pure (Json.mkObj [("ok", b)])
+        | none => pure (unsupported "outside the model")
+    | "date_re" =>
+      let s ← j.getObjValAs? String "s"
+      pure (Json.mkObj [("ok", reDateMatch s.toList)])
+    | "validate_section" =>
+      let key ← j.getObjValAs? String "key"
+      let policy ← j.getObjValAs? String "policy"
+      let t ← tablesOfJson j
+      let children ← (← j.getObjValAs? (Array Json) "children").toList.mapM fun e => do
+        let k ← (← e.getArrVal? 0).getStr?
+        let v ← pyValOfJson (← e.getArrVal? 1)
+        pure (k.toList, v)
+      let fields ← (← j.getObjValAs? (Array Json) "fields").toList.mapM fun e => do
+        let k ← (← e.getArrVal? 0).getStr?
+        let cj ← e.getArrVal? 1
+        let cs : Option (List Constraint) ← match cj with
+          | .null => pure none
+          | _ => do let a ← cj.getArr?; pure (some (← a.toList.mapM constraintOfJson))
+        pure ((k.toList, cs) : SField)
+      -- domain check for every (field chain, value it will be evaluated on)
+      let prob := fields.findSome? fun (f : SField) =>
+        match f.2, lookupLast f.1 children with
+        | some cs, some v => problem t cs v
+        | _, _ => none
+      match prob with
+      | some why => pure (unsupported why)
+      | none =>
+        match validateSection t.env key.toList children policy.toList fields with
+        | .errors es => pure (Json.mkObj [("errors", Json.arr (es.map fun e => Json.arr #[e.code, String.ofList e.path, e.severity]).toArray)])
+        | .raised x => pure (Json.mkObj [("raised", x)])
+    | _ => pure (unsupported "op")
+  match r with
+  | .ok out => out
+  | .error e => unsupported e
 
 partial def loop (h : IO.FS.Stream) (out : IO.FS.Stream) : IO Unit := do
   let line ← h.getLine
   if line.isEmpty then return ()
   let reply := match Json.parse line with
     | .ok j => handle j
-    | .error e => Json.mkObj [("unsupported", s!"json: {e}")]
+    | .error e => unsupported s!"json: {e}"
   out.putStrLn reply.compress
   loop h out
 
